@@ -34,6 +34,7 @@ class Scope(list[Any]):
     weak: bool
     parameters: frozenset[str]
     lexical: bool
+    supplied: set[int]
 
     def __init__(
         self, items: Iterable[Any] = (), *, owner: "NixExpression | None" = None
@@ -49,6 +50,10 @@ class Scope(list[Any]):
         # `with` or `inherit (set)`: they are found there, but their values do
         # not see their siblings.
         self.lexical = True
+        # ids of the bindings of a parameter scope that were supplied by the
+        # call's argument: their values belong to the call site, not to the
+        # function (only defaults see the other parameters).
+        self.supplied = set()
 
     def _find_binding_index(self, key: str) -> int | None:
         from nix_manipulator.expressions.binding import Binding
